@@ -314,12 +314,22 @@ def enc_emit(enabled_idx, lines, raw, code_idx):
     return " ".join(parts)
 
 
-def dec_emit(s, names):
+def reported_col(lines, lineno, col):
+    """show_error (since 2913974) reports the column in characters: it treats the node's col_offset
+    as a UTF-8 byte offset into the line and converts it (also for the _FakeNode columns of the final
+    passes, which already are character indexes).  The model carries the offset through unchanged;
+    the conversion is applied here to the model's output."""
+    if 1 <= lineno <= len(lines):
+        return len((lines[lineno - 1] + "\n").encode("utf-8")[:col].decode("utf-8", "ignore"))
+    return col
+
+
+def dec_emit(s, names, lines=None):
     left = s.split("|")[0].split()
     out = []
     for t in left:
         c, l, col = t.split(":")
-        out.append([names[int(c)], int(l), int(col)])
+        out.append([names[int(c)], int(l), int(col) if lines is None else reported_col(lines, int(l), int(col))])
     return out
 
 
@@ -485,17 +495,54 @@ def make_cfg(route, S, extra_on=("unused_ignore", "bare_ignore")):
 
 
 def enabled_names(cfg, all_names, disabled_in_tests, route_applies=True):
+    """The documented precedence: command line > applicable override of the main file > main file top level
+    > extended file > the test defaults (which the harness passes as command-line settings for every code the
+    configuration files do not mention)."""
     en = set(all_names) - set(disabled_in_tests)
-    en |= set(cfg.get("cli_on", ()))
-    en -= set(cfg.get("cli_off", ()))
+    en -= set(cfg.get("ext_off", ()))
+    en |= set(cfg.get("ext_on", ()))
     en -= set(cfg.get("top_off", ()))
+    en |= set(cfg.get("top_on", ()))
     ov = cfg.get("override")
     if ov:
         mp = cfg.get("module", "pa.pb").split(".")
         pre = ov[0].split(".")
         if mp[: len(pre)] == pre:
             en -= set(ov[1])
+        else:
+            # the main file's top level says `true` for the codes of a non-applicable override (see lines_impl)
+            en |= set(ov[1]) - set(cfg.get("top_off", ()))
+    en |= set(cfg.get("cli_on", ()))
+    en -= set(cfg.get("cli_off", ()))
     return en
+
+
+def layered_cfgs(present, bi):
+    """A command-line entry on top of a config layer that sets the same code the other way (top level,
+    applicable override, extended file) — and the other way round for default-off codes."""
+    out = []
+    if not present:
+        return out
+    c = present[bi % len(present)]
+    for layer in ("top_off", "ext_off"):
+        cfg = make_cfg("cli", [])
+        cfg[layer] = [c]
+        cfg["cli_on"] = cfg["cli_on"] + [c]          # -e c on top of `c = false`: everything is reported again
+        out.append(cfg)
+    cfg = make_cfg("override", [c])
+    cfg["cli_on"] = cfg["cli_on"] + [c]
+    out.append(cfg)
+    cfg = make_cfg("cli", [c])                        # -d c on top of `c = true` in the file
+    cfg["top_on"] = [c]
+    out.append(cfg)
+    cfg = make_cfg("cli", [])                         # layers without a command-line entry: main beats extended
+    cfg["ext_off"] = [c]
+    cfg["top_on"] = [c]
+    out.append(cfg)
+    cfg = make_cfg("cli", [])
+    cfg["ext_off"] = [c]
+    out.append(cfg)
+    return out
 
 
 def single_edits(rng, lines, tags, d0, names, exhaustive):
@@ -651,6 +698,8 @@ def run(tier: str, replay: str | None = None):
                 for ci, c in enumerate(singles):
                     route = TRACKED_CFG_ROUTES[(bi + ci) % len(TRACKED_CFG_ROUTES)]
                     variants.append({"base": bi, "cfg": make_cfg(route, [c]), "edits": []})
+                for cfg in layered_cfgs(present, bi):
+                    variants.append({"base": bi, "cfg": cfg, "edits": []})
                 # every near-miss override, for the codes the program reports: nothing may change
                 for ri, route in enumerate(NEAR_MISS_ROUTES):
                     variants.append({"base": bi, "cfg": make_cfg(route, present if ri % 2 else [present[(bi + ri) % len(present)]]), "edits": []})
@@ -742,7 +791,7 @@ def run(tier: str, replay: str | None = None):
         want = collections.Counter(d for d in d0s[bi] if d[0] in en)
         got = collections.Counter(tuple(x) for x in r["out"])
         n_oracle += 1
-        hist["disable_" + ("cli" if cfg["cli_off"] else "top" if cfg["top_off"] else ("override" if set(en) != set(enabled_names(base_cfg, names, dit)) else "override_near_miss"))] += 1
+        hist["disable_" + ("layered" if (cfg.get("top_on") or cfg.get("ext_off") or (cfg.get("cli_on") and set(cfg["cli_on"]) - {"unused_ignore", "bare_ignore"})) else "cli" if cfg["cli_off"] else "top" if cfg["top_off"] else ("override" if set(en) != set(enabled_names(base_cfg, names, dit)) else "override_near_miss"))] += 1
         distinct.add(("disable", bi, cj))
         if want != got:
             failing.append({"kind": "failing-input", "what": "disable is not a projection",
@@ -796,7 +845,7 @@ def run(tier: str, replay: str | None = None):
             outs = lib.ocaml_run(exe, model_lines)
             for (tag, lines, cfg, r), o in zip(model_meta, outs):
                 n_model += 1
-                m = dec_emit(o, static_names)
+                m = dec_emit(o, static_names, lines)
                 if tag[0] == "special":
                     special_model_agrees[tag[1]] = (m == r["out"])
                 if m != r["out"]:
